@@ -74,3 +74,18 @@ Theorem C06_checker_output_independent_of_map_order_partial : forall intern P Q 
   check_program intern fuel P = COk A -> check_program intern fuel Q = COk B -> A = B.
 Proof. exact check_perm_export_nocalls. Qed.
 Print Assumptions C06_checker_output_independent_of_map_order_partial.
+
+(* ... and WITH calls, for any two fuels (Check/InferPerm2.v: canonical memoised entries, determinism of
+   check_fn up to what is memoised; Check/InferPermFinal.v discharges the fuel hypotheses from the
+   fuel monotonicity of InferFuel2.v): if both orders are accepted, the exported typed programs are
+   EQUAL.  (Acceptance equivalence with calls - "P accepted implies Q accepted" - is not proved.) *)
+From GV Require Import Check.InferPermFinal.
+
+Theorem C06_checker_output_independent_of_map_order : forall intern P Q f f' A B,
+  (forall a b, intern a = intern b -> a = b) ->
+  up_consts Q = up_consts P -> up_main Q = up_main P ->
+  Permutation (up_fns P) (up_fns Q) -> Permutation (up_structs P) (up_structs Q) -> Permutation (up_enums P) (up_enums Q) ->
+  NoDup (map uf_name (up_fns P)) -> NoDup (map us_name (up_structs P)) -> NoDup (map ue_name (up_enums P)) ->
+  check_program intern f P = COk A -> check_program intern f' Q = COk B -> A = B.
+Proof. exact check_perm_export_final. Qed.
+Print Assumptions C06_checker_output_independent_of_map_order.
